@@ -478,7 +478,9 @@ def _as_if_without_later_imports(sheet, path, index, got, tight):
     p2, err = _project(assemble(sheet2, tight)[0])
     if err:
         return False
-    return got == p2 or any(g2 == p2 for g2, _ in _remove_one(got, path))
+    if got == p2:
+        return 'dropped'
+    return 'kept' if any(g2 == p2 for g2, _ in _remove_one(got, path)) else False
 
 
 # ---------------------------------------------------------------------------------------------------------------- hosts (domain 1)
@@ -921,9 +923,15 @@ def _k_function_first_statement(rec):
 
 
 def _k_before_import(rec):
-    """rule with an invalid selector at the top level ahead of an @import or @namespace rule, and the damaged DOM is the DOM the sheet has without these
-    @import / @namespace rules"""
-    return rec['inputs'].get('mode') == 'rule' and bool(rec['inputs'].get('as_if_without_later_imports'))
+    """rule with an invalid selector at the top level ahead of an @import or @namespace rule; the rule is dropped and the damaged DOM is the DOM the
+    sheet has without these @import / @namespace rules"""
+    return rec['inputs'].get('mode') == 'rule' and rec['inputs'].get('as_if_without_later_imports') in (True, 'dropped')
+
+
+def _k_lenient_selector_before_import(rec):
+    """as above, but cssutils accepts the invalid selector ('| x', '#1', 'x | y', ':nth-child(x y)'), KEEPS the rule as a style rule, and the kept rule
+    then ends the @import / @namespace section: the damaged DOM is the undamaged one plus that rule minus the later @import / @namespace rules"""
+    return rec['inputs'].get('mode') == 'rule' and rec['inputs'].get('as_if_without_later_imports') == 'kept'
 
 
 def _k_page_margin_keyword_nested(rec):
@@ -960,6 +968,7 @@ KNOWN = [
     ('C04-namespace-same-uri-merged', _k_namespace_same_uri),
     ('C04-function-first-statement', _k_function_first_statement),
     ('C04-invalid-statement-before-import', _k_before_import),
+    ('C04-lenient-selector-before-import', _k_lenient_selector_before_import),
     ('C04-margin-box-atkeyword', _k_margin_at),
     ('C04-margin-box-nested-block', _k_margin_brace),
     ('C04-bracket-first-declaration', _k_bracket_first),
@@ -1059,7 +1068,7 @@ def damaged_declarations(ctx):
     t0 = time.time()
     npl = len(_PLACEMENTS['decl'])
     thorough = ctx.tier == 'thorough'
-    plan = [(1, False, npl), (2, False, npl), (3, False, npl if thorough else 2), (4, not thorough, 1 if thorough else 2)]
+    plan = [(1, False, npl), (2, False, npl), (3, False, npl if thorough else 2), (4, not thorough, 1)]
     tasks = []
     sizes = []
     for n, small, per in plan:
@@ -1124,7 +1133,7 @@ def damaged_sheets(ctx):
     """domain 2"""
     t0 = time.time()
     sheets = gen.enumerate_sheets(ctx.tier, ctx.seed)
-    per = 4
+    per = 3 if ctx.tier == 'quick' else 4
     tasks = [(ctx.tier, ctx.seed, lo, hi, per) for lo, hi in _chunks(len(sheets), ctx, (), target=96)]
     results = _pool_run(ctx, _w_sheets, tasks)
     nb = sum(n + 1 for _, sh in sheets for _, _, n, _ in containers(sh))
